@@ -52,7 +52,7 @@ def classes(tokens):
         if is_lt(t) and nsig in ('++', '--'):
             out.add('KF-04c')
         if t in RESTRICTED and nxt is not None and is_lt(nxt):
-            if nsig == ';' or prv == '.':
+            if nsig in (';', ':') or prv in ('.', 'get', 'set'):
                 out.add('KF-04f')
         if t in RESTRICTED and nxt is not None and is_comment(nxt):
             out.add('KF-04d')
@@ -67,6 +67,41 @@ def classes(tokens):
             out.add('KF-05e')
         if t in HEADER_KW and nxt is not None and (is_lt(nxt) or is_comment(nxt)):
             out.add('KF-05b')       # header keyword separated from its `(` by a line terminator or comment
+        if t == ')' and nxt is not None and (is_lt(nxt) or is_comment(nxt)) and starts_slash(nsig):
+            out.add('KF-05b')       # ... or the closing `)` separated from a following `/` likewise
+    # --- classes found by the validation of the reference parser (see known_findings.json) ---
+    for i, t in enumerate(tokens):
+        nxt = tokens[i + 1] if i + 1 < n else None
+        if t in ('get', 'set'):
+            j = i + 1
+            while j < n and (is_lt(tokens[j]) or is_comment(tokens[j])):
+                j += 1
+            k = tokens[j] if j < n else None
+            if k is not None and (k[:1] in '\'"' or k[:1].isdigit()):
+                out.add('KF-03c')       # accessor with a string / number key
+        if '\\u' in t and not (t[:1] in '\'"/'):
+            out.add('KF-06d')           # unicode escape in an identifier
+        if t[:1].isdigit() and nxt is not None and IDENT.match(nxt) and nxt in ('in', 'instanceof'):
+            pass
+    # NoIn handling: an `in` operator at bracket depth 0 inside the initialiser of a classic for(;;) header
+    for i, t in enumerate(sig):
+        if t == 'for' and i + 1 < len(sig) and sig[i + 1] == '(':
+            depth, k, semis, seg_has_in = 0, i + 1, 0, False
+            while k < len(sig):
+                x = sig[k]
+                if x in '([{':
+                    depth += 1
+                elif x in ')]}':
+                    depth -= 1
+                    if depth == 0:
+                        break
+                elif depth == 1 and x == ';':
+                    semis += 1
+                elif depth == 1 and x == 'in' and semis == 0:
+                    seg_has_in = True
+                k += 1
+            if seg_has_in and semis >= 1:
+                out.add('KF-03h')
     if 'with' in sig:
         for i in range(len(sig) - 1):
             if sig[i] == ')' and starts_slash(sig[i + 1]):
